@@ -16,6 +16,7 @@
 """Utils for min/max based quantization."""
 
 from collections.abc import Sequence
+import dataclasses
 import enum
 from typing import Any, Optional
 import numpy as np
@@ -251,6 +252,21 @@ def _get_tensor_transformation_params_wrapper(
         tensor_min_max,
         tensor_quant_config,
         tensor_content=tensor_data,
+    )
+  elif (
+      is_constant
+      and isinstance(quant_params, qtyping.UniformQuantParams)
+      and quant_params.quantized_data is None
+  ):
+    # The parameters were handed down from another tensor of the op (e.g.
+    # concatenation inputs take the output's): a constant still needs its
+    # content quantized with them, otherwise the tensor becomes an integer
+    # tensor whose buffer keeps the float bytes.
+    quant_params = dataclasses.replace(
+        quant_params,
+        quantized_data=uniform_quantize_tensor.uniform_quantize(
+            tensor_data, quant_params
+        ),
     )
   return get_tensor_transformation_params(
       tensor_name,
